@@ -21,6 +21,7 @@
 import Corerad.Gen.Trans
 import Corerad.Gen.Plugin
 import Corerad.Model.Wild
+import Corerad.Lemmas.LoopFold
 
 set_option linter.unusedSimpArgs false
 
@@ -166,20 +167,93 @@ theorem gen_isStable :
     Gen.Plugin.isEUI64Body = ["b := ip.As16()", "return b[11] == 0xff && b[12] == 0xfe"] := by
   decide
 
-/-- `(*RDNSS).current`: the fold `best = betterRDNSS(best, a)` (accumulator first) from the zero
-    `system.IP` over the addresses that are not IPv4 / deprecated / temporary / tentative
-    (`Model.rdnssEligible`, `Model.currentRDNSS`), an invalid result is the error -/
-theorem gen_rdnss_current :
-    Gen.Plugin.rdnssCurrentBody =
-      ["addrs, err := r.Addrs()", "if err != nil", ". return netip.Addr{}, <error>",
-       "var best system.IP",
-       "for _, a := range addrs",
-       ". ip := a.Address.Addr()",
-       ". if ip.Is4() || a.Deprecated || a.Temporary || a.Tentative", ". . continue",
-       ". best = betterRDNSS(best, a)",
-       "ip := best.Address.Addr()",
-       "if !ip.IsValid()", ". return netip.Addr{}, <error>",
-       "return ip, nil"] := by
-  decide
+/-! ### 3. `(*RDNSS).current` — the fold, translated (tools/extract/translate_loop.go)
+
+The printed body of the function (`Gen.Plugin.rdnssCurrentBody`) is no longer pinned: the loop is
+re-translated into `Gen.Trans.RDNSS_current` (a left fold with the loop-carried `best` as its state)
+and proved equal to `Model.currentRDNSS` for every address list, which subsumes the printed fact and
+survives renames. -/
+
+/-- the exclusion test of the loop -/
+def skip (a : SysIP) : Bool := ((a.addr.addr.is4 || a.deprecated) || a.temporary) || a.tentative
+
+theorem skip_eq (a : SysIP) : (!skip a) = rdnssEligible a := by
+  unfold skip rdnssEligible
+  cases a.addr.addr.is4 <;> cases a.deprecated <;> cases a.temporary <;> cases a.tentative <;> rfl
+
+/-- **`(*RDNSS).current()` as translated from the source is `Model.currentRDNSS`**, for every
+    address list: the loop that skips IPv4 / deprecated / temporary / tentative addresses and folds
+    `betterRDNSS` from the zero `system.IP` (accumulator first), an invalid result being the error
+    "interface has no usable IPv6 addresses".  The comparison function is left abstract here … -/
+theorem RDNSS_current_equiv_gen (as : List SysIP) (better : SysIP → SysIP → SysIP) :
+    Gen.Trans.RDNSS_current (Pfx := Prefix) (recv_Addrs := some as) (zero_IPRec := SysIP.zero)
+        (IP_Address := fun a => a.addr) (Prefix_Addr := fun p => p.addr) (Addr_Is4 := IP.is4)
+        (IP_Deprecated := fun a => a.deprecated) (IP_Temporary := fun a => a.temporary)
+        (IP_Tentative := fun a => a.tentative) (betterRDNSS := better) (Addr_IsValid := fun a => a.valid)
+      = (let best := (as.filter rdnssEligible).foldl better SysIP.zero
+         if best.addr.addr.valid then some best.addr.addr else none) := by
+  unfold Gen.Trans.RDNSS_current
+  simp only []
+  have hb : (fun (best : SysIP) (a : SysIP) =>
+        if (((a.addr.addr.is4 || a.deprecated) || a.temporary) || a.tentative) = true then best else better best a)
+      = (fun best a => if skip a = true then best else better best a) := rfl
+  rw [hb, Corerad.Lemmas.LoopFold.foldl_skip]
+  have hf : as.filter (fun a => !skip a) = as.filter rdnssEligible :=
+    List.filter_congr (fun a _ => skip_eq a)
+  rw [hf]
+  cases ((as.filter rdnssEligible).foldl better SysIP.zero).addr.addr.valid <;> simp
+
+/-- … and with the TRANSLATED `betterRDNSS` (itself containing the translated `isStable`) plugged in,
+    the whole wildcard choice as read from the source equals the model. -/
+theorem RDNSS_current_equiv (as : List SysIP) :
+    Gen.Trans.RDNSS_current (Pfx := Prefix) (recv_Addrs := some as) (zero_IPRec := SysIP.zero)
+        (IP_Address := fun a => a.addr) (Prefix_Addr := fun p => p.addr) (Addr_Is4 := IP.is4)
+        (IP_Deprecated := fun a => a.deprecated) (IP_Temporary := fun a => a.temporary)
+        (IP_Tentative := fun a => a.tentative)
+        (betterRDNSS := fun b c =>
+          Gen.Trans.betterRDNSS (best := b) (current := c) (Address_IsValid := fun x => x.addr.isValid)
+            (isStable := fun x => Gen.Trans.isStable (ip := x) (ValidForever := fun x => x.validForever)
+              (ManageTemporaryAddresses := fun x => x.manageTemp) (StablePrivacy := fun x => x.stablePrivacy)
+              (Address_Addr := fun x => x.addr.addr) (isEUI64 := Model.isEUI64))
+            (Address_Addr := fun x => x.addr.addr) (IsPrivate := IP.isPrivate)
+            (IsGlobalUnicast := IP.isGlobalUnicast) (IsLinkLocalUnicast := IP.isLinkLocalUnicast)
+            (Less := IP.less))
+        (Addr_IsValid := fun a => a.valid)
+      = Model.currentRDNSS as := by
+  rw [RDNSS_current_equiv_gen]
+  have h : (fun b c =>
+      Gen.Trans.betterRDNSS (best := b) (current := c) (Address_IsValid := fun x => x.addr.isValid)
+        (isStable := fun x => Gen.Trans.isStable (ip := x) (ValidForever := fun x => x.validForever)
+          (ManageTemporaryAddresses := fun x => x.manageTemp) (StablePrivacy := fun x => x.stablePrivacy)
+          (Address_Addr := fun x => x.addr.addr) (isEUI64 := Model.isEUI64))
+        (Address_Addr := fun x => x.addr.addr) (IsPrivate := IP.isPrivate)
+        (IsGlobalUnicast := IP.isGlobalUnicast) (IsLinkLocalUnicast := IP.isLinkLocalUnicast)
+        (Less := IP.less)) = Model.betterRDNSS :=
+    funext (fun b => funext (fun c => betterRDNSS_full_equiv b c))
+  rw [h]
+  rfl
+
+/-- an error from the address source is an error of the choice (RA generation fails) -/
+theorem RDNSS_current_error {IPRec Addr Pfx : Type} (z : IPRec) (ia : IPRec → Pfx) (pa : Pfx → Addr)
+    (i4 : Addr → Bool) (d t n : IPRec → Bool) (b : IPRec → IPRec → IPRec) (v : Addr → Bool) :
+    Gen.Trans.RDNSS_current (recv_Addrs := none) (zero_IPRec := z) (IP_Address := ia) (Prefix_Addr := pa)
+        (Addr_Is4 := i4) (IP_Deprecated := d) (IP_Temporary := t) (IP_Tentative := n) (betterRDNSS := b)
+        (Addr_IsValid := v) = none := rfl
+
+/-- non-vacuity: a deprecated ULA, a tentative GUA, an eligible GUA and an eligible link-local → the GUA -/
+example :
+    Gen.Trans.RDNSS_current (Pfx := Prefix)
+        (recv_Addrs := some [
+          ({ addr := ⟨{ val := 0xfd000000000000000000000000000001 }, 64⟩, deprecated := true } : SysIP),
+          { addr := ⟨{ val := 0x20010db8000000000000000000000001 }, 64⟩, tentative := true },
+          { addr := ⟨{ val := 0xfe800000000000000000000000000001 }, 64⟩ },
+          { addr := ⟨{ val := 0x20010db8000000000000000000000002 }, 64⟩ } ])
+        (zero_IPRec := SysIP.zero)
+        (IP_Address := fun a => a.addr) (Prefix_Addr := fun p => p.addr) (Addr_Is4 := IP.is4)
+        (IP_Deprecated := fun a => a.deprecated) (IP_Temporary := fun a => a.temporary)
+        (IP_Tentative := fun a => a.tentative) (betterRDNSS := Model.betterRDNSS)
+        (Addr_IsValid := fun a => a.valid)
+      = some { val := 0x20010db8000000000000000000000002 } := by
+  decide +kernel
 
 end Corerad.Props.TransC14
